@@ -24,6 +24,9 @@ namespace FEAT { namespace Math { template<> inline bool isnan<Q>(Q) { return fa
 #include <kernel/lafem/sparse_matrix_bcsr.hpp>
 #include <kernel/lafem/unit_filter.hpp>
 #include <kernel/lafem/unit_filter_blocked.hpp>
+#include <kernel/lafem/none_filter.hpp>
+#include <kernel/lafem/mean_filter.hpp>
+#include <kernel/lafem/slip_filter.hpp>
 #include <kernel/solver/base.hpp>
 #include <kernel/solver/jacobi_precond.hpp>
 #include <kernel/solver/sor_precond.hpp>
@@ -92,13 +95,19 @@ static void show_q(std::ostream& o, const QV& v) { o << v.size(); for(auto& x : 
 static void show_n(std::ostream& o, const std::vector<Index>& v) { o << v.size(); for(auto& x : v) o << " " << x; }
 
 // ----------------------------------------------------------------------------------------------------------------
-// scalar histories
+// scalar histories.  Filter descriptor (after the matrix): "k i_1 .. i_k" | "unit k i_1 .. i_k"  UnitFilter,
+//   "none"  NoneFilter,  "mean L(prim) L(dual)"  MeanFilter(prim, dual)
+// Steps: S init_symbolic | N init_numeric | E done_numeric | D done_numeric + done_symbolic | U L(val) new values |
+//        A L(x) apply(y, x) | I L(x) apply(v, v) in place (U flag = the matrix arrays are unchanged)
+// Kinds: jac sor ssor poly ilu mat scale diag (diag: DiagonalPrecond on the value array of the "matrix")
 // ----------------------------------------------------------------------------------------------------------------
 typedef SparseMatrixCSR<Q, Index> CSR;
 typedef DenseVector<Q, Index> Vec;
 typedef UnitFilter<Q, Index> UFilter;
 
-static std::shared_ptr<Solver::SolverBase<Vec>> make_solver(const std::string& kind, long long p, Q omega, const CSR& a, const UFilter& f)
+template<typename Filter_>
+static std::shared_ptr<Solver::SolverBase<Vec>> make_solver(const std::string& kind, long long p, Q omega, const CSR& a,
+  const Vec& dvec, const Filter_& f)
 {
   if(kind == "jac") return Solver::new_jacobi_precond(a, f, omega);
   if(kind == "sor") return Solver::new_sor_precond(PreferredBackend::generic, a, f, omega);
@@ -106,49 +115,87 @@ static std::shared_ptr<Solver::SolverBase<Vec>> make_solver(const std::string& k
   if(kind == "poly") return Solver::new_polynomial_precond(a, f, Index(p), omega);
   if(kind == "ilu") return Solver::new_ilu_precond(PreferredBackend::generic, a, f, int(p));
   if(kind == "mat") return Solver::new_matrix_precond(a, f);
+  if(kind == "scale") return std::make_shared<Solver::ScalePrecond<Vec, Filter_>>(f, omega);
+  if(kind == "diag") return Solver::new_diagonal_precond(dvec, f);
   std::cerr << "\n>>> FATAL ERROR: harness: unknown kind\n"; std::abort();
 }
 
-static void do_hist(Cur& c, std::ostream& o)
+struct HistHead
 {
-  std::string kind = c.str();
-  long long p = c.i64();
-  Q omega = Q::parse(c.str());
-  Index n = c.idx();
-  NV rp = c.idxlist(), ci = c.idxlist(); QV val = qlist(c);
-  NV fidx = c.idxlist();
-  auto vci = mk_ivec(ci); auto vrp = mk_ivec(rp); auto vv = mk_vec(val);
-  CSR a(n, n, vci, vv, vrp);
-  UFilter filter(n);
-  for(auto i : fidx) filter.add(Index(i), Q(5));
-  auto solver = make_solver(kind, p, omega, a, filter);
+  std::string kind; long long p; Q omega; Index n; NV rp, ci; QV val;
+  explicit HistHead(Cur& c)
+  {
+    kind = c.str(); p = c.i64(); omega = Q::parse(c.str()); n = c.idx();
+    rp = c.idxlist(); ci = c.idxlist(); val = qlist(c);
+  }
+};
+
+template<typename Filter_>
+static void run_hist(Cur& c, std::ostream& o, HistHead& h, const Filter_& filter)
+{
+  auto vci = mk_ivec(h.ci); auto vrp = mk_ivec(h.rp); auto vv = mk_vec(h.val);
+  CSR a(h.n, h.n, vci, vv, vrp);
+  Vec dvec(mk_vec(h.val));   // the vector of the diagonal preconditioner (kind diag only)
+  bool is_diag = (h.kind == "diag");
+  auto solver = make_solver(h.kind, h.p, h.omega, a, dvec, filter);
   std::size_t nsteps = c.idx();
   bool first = true;
+  QV& val = h.val;
   for(std::size_t s = 0; s < nsteps; ++s)
   {
     std::string st = c.str();
     if(st == "S") solver->init_symbolic();
     else if(st == "N") solver->init_numeric();
+    else if(st == "E") solver->done_numeric();
     else if(st == "D") { solver->done_numeric(); solver->done_symbolic(); }
     else if(st == "U")
     {
       val = qlist(c);
-      Q* pv = a.val();
-      for(std::size_t k = 0; k < val.size() && k < std::size_t(a.used_elements()); ++k) pv[k] = val[k];
+      Q* pv = is_diag ? dvec.elements() : a.val();
+      std::size_t lim = is_diag ? std::size_t(dvec.size()) : std::size_t(a.used_elements());
+      for(std::size_t k = 0; k < val.size() && k < lim; ++k) pv[k] = val[k];
     }
-    else if(st == "A")
+    else if(st == "A" || st == "I")
     {
       QV x = qlist(c);
       Vec vx(mk_vec(x));
       Vec vy(Index(x.size()), Q(SENTINEL));
-      Solver::Status status = solver->apply(vy, vx);
+      Solver::Status status = (st == "A") ? solver->apply(vy, vx) : solver->apply(vx, vx);
       if(status != Solver::Status::success) { o << " STATUS-NOT-SUCCESS"; return; }
-      bool unchanged = same(vx.elements(), x) && same(a.val(), val) && same(a.col_ind(), ci) && same(a.row_ptr(), rp);
-      show(o, vy.elements(), vy.size(), unchanged, first);
+      bool unchanged = (st == "I" || same(vx.elements(), x)) && same(is_diag ? dvec.elements() : a.val(), val)
+        && same(a.col_ind(), h.ci) && same(a.row_ptr(), h.rp);
+      show(o, (st == "A") ? vy.elements() : vx.elements(), Index(x.size()), unchanged, first);
     }
     else { std::cerr << "\n>>> FATAL ERROR: harness: unknown step\n"; std::abort(); }
   }
   if(first) o << "NONE";
+}
+
+static bool is_number(const std::string& s) { return !s.empty() && s[0] >= '0' && s[0] <= '9'; }
+
+static void do_hist(Cur& c, std::ostream& o)
+{
+  HistHead h(c);
+  std::string ft = is_number(c.t[c.p]) ? std::string("unit") : c.str();
+  if(ft == "unit")
+  {
+    NV fidx = c.idxlist();
+    UFilter filter(h.n);
+    for(auto i : fidx) filter.add(Index(i), Q(5));
+    run_hist(c, o, h, filter);
+  }
+  else if(ft == "none")
+  {
+    NoneFilter<Q, Index> filter;
+    run_hist(c, o, h, filter);
+  }
+  else if(ft == "mean")
+  {
+    QV prim = qlist(c), dual = qlist(c);
+    MeanFilter<Q, Index> filter(mk_vec(prim), mk_vec(dual));
+    run_hist(c, o, h, filter);
+  }
+  else { std::cerr << "\n>>> FATAL ERROR: harness: unknown filter\n"; std::abort(); }
 }
 
 // ----------------------------------------------------------------------------------------------------------------
@@ -221,6 +268,8 @@ static void do_ilulev(Cur& c, std::ostream& o)
 // ----------------------------------------------------------------------------------------------------------------
 // blocked histories (oracle only)
 // ----------------------------------------------------------------------------------------------------------------
+// Blocked histories: filter descriptor "k i_1 .. i_k" | "unit k i.." UnitFilterBlocked, "none" NoneFilterBlocked,
+// "slip k (i nu_1 .. nu_bs)*k" SlipFilter<bs>; kinds jac sor ssor ilu mat scale diag; steps as in the scalar case
 template<int bs_>
 struct Blk
 {
@@ -236,58 +285,98 @@ struct Blk
     return r;
   }
 
-  static std::shared_ptr<Solver::SolverBase<BVec>> make_solver(const std::string& kind, long long p, Q omega, const Mat& a, const BFilter& f)
+  template<typename Filter_>
+  static std::shared_ptr<Solver::SolverBase<BVec>> make_solver(const std::string& kind, long long p, Q omega, const Mat& a,
+    const BVec& dvec, const Filter_& f)
   {
     if(kind == "jac") return Solver::new_jacobi_precond(a, f, omega);
     if(kind == "sor") return Solver::new_sor_precond(PreferredBackend::generic, a, f, omega);
     if(kind == "ssor") return Solver::new_ssor_precond(PreferredBackend::generic, a, f, omega);
     if(kind == "ilu") return Solver::new_ilu_precond(PreferredBackend::generic, a, f, int(p));
     if(kind == "mat") return Solver::new_matrix_precond(a, f);
+    if(kind == "scale") return std::make_shared<Solver::ScalePrecond<BVec, Filter_>>(f, omega);
+    if(kind == "diag") return Solver::new_diagonal_precond(dvec, f);
     std::cerr << "\n>>> FATAL ERROR: harness: unknown kind\n"; std::abort();
   }
 
-  static void run(Cur& c, std::ostream& o)
+  template<typename Filter_>
+  static void run_with(Cur& c, std::ostream& o, HistHead& h, QV& dval, const Filter_& filter)
   {
-    std::string kind = c.str();
-    long long p = c.i64();
-    Q omega = Q::parse(c.str());
-    Index n = c.idx();
-    NV rp = c.idxlist(), ci = c.idxlist(); QV val = qlist(c);
-    NV fidx = c.idxlist();
-    auto vci = mk_ivec(ci); auto vrp = mk_ivec(rp);
-    auto vv = mk_vec(val);
-    Mat a(n, n, vci, vv, vrp);
-    BFilter filter(n);
-    for(auto i : fidx) { Tiny::Vector<Q, bs_> t(Q(5)); filter.add(Index(i), t); }
-    auto solver = make_solver(kind, p, omega, a, filter);
+    auto vci = mk_ivec(h.ci); auto vrp = mk_ivec(h.rp);
+    auto vv = mk_vec(h.val);
+    Mat a(h.n, h.n, vci, vv, vrp);
+    bool is_diag = (h.kind == "diag");
+    // kind diag: the vector of the diagonal preconditioner is the first n*bs values
+    BVec dvec(mk_bvec(QV(h.val.begin(), h.val.begin() + std::min(h.val.size(), std::size_t(h.n) * bs_))));
+    dval = QV(h.val.begin(), h.val.begin() + std::min(h.val.size(), std::size_t(h.n) * bs_));
+    auto solver = make_solver(h.kind, h.p, h.omega, a, dvec, filter);
     std::size_t nsteps = c.idx();
     bool first = true;
+    QV& val = h.val;
     for(std::size_t s = 0; s < nsteps; ++s)
     {
       std::string st = c.str();
       if(st == "S") solver->init_symbolic();
       else if(st == "N") solver->init_numeric();
+      else if(st == "E") solver->done_numeric();
       else if(st == "D") { solver->done_numeric(); solver->done_symbolic(); }
       else if(st == "U")
       {
         val = qlist(c);
         Q* pv = a.template val<Perspective::pod>();
         for(std::size_t k = 0; k < val.size(); ++k) pv[k] = val[k];
+        Q* pd = dvec.template elements<Perspective::pod>();
+        for(std::size_t k = 0; k < dval.size() && k < val.size(); ++k) { pd[k] = val[k]; dval[k] = val[k]; }
       }
-      else if(st == "A")
+      else if(st == "A" || st == "I")
       {
         QV x = qlist(c);
         BVec vx(mk_bvec(x));
         BVec vy(Index(x.size()) / Index(bs_), Q(SENTINEL));
-        Solver::Status status = solver->apply(vy, vx);
+        Solver::Status status = (st == "A") ? solver->apply(vy, vx) : solver->apply(vx, vx);
         if(status != Solver::Status::success) { o << " STATUS-NOT-SUCCESS"; return; }
-        bool unchanged = same(vx.template elements<Perspective::pod>(), x) && same(a.template val<Perspective::pod>(), val)
-          && same(a.col_ind(), ci) && same(a.row_ptr(), rp);
-        show(o, vy.template elements<Perspective::pod>(), Index(x.size()), unchanged, first);
+        bool unchanged = (st == "I" || same(vx.template elements<Perspective::pod>(), x))
+          && same(a.template val<Perspective::pod>(), val) && same(a.col_ind(), h.ci) && same(a.row_ptr(), h.rp)
+          && (!is_diag || same(dvec.template elements<Perspective::pod>(), dval));
+        show(o, (st == "A") ? vy.template elements<Perspective::pod>() : vx.template elements<Perspective::pod>(),
+          Index(x.size()), unchanged, first);
       }
       else { std::cerr << "\n>>> FATAL ERROR: harness: unknown step\n"; std::abort(); }
     }
     if(first) o << "NONE";
+  }
+
+  static void run(Cur& c, std::ostream& o)
+  {
+    HistHead h(c);
+    QV dval;
+    std::string ft = is_number(c.t[c.p]) ? std::string("unit") : c.str();
+    if(ft == "unit")
+    {
+      NV fidx = c.idxlist();
+      BFilter filter(h.n);
+      for(auto i : fidx) { Tiny::Vector<Q, bs_> t(Q(5)); filter.add(Index(i), t); }
+      run_with(c, o, h, dval, filter);
+    }
+    else if(ft == "none")
+    {
+      NoneFilterBlocked<Q, Index, bs_> filter;
+      run_with(c, o, h, dval, filter);
+    }
+    else if(ft == "slip")
+    {
+      std::size_t k = c.idx();
+      SlipFilter<Q, Index, bs_> filter(h.n, h.n);
+      for(std::size_t e = 0; e < k; ++e)
+      {
+        Index i = c.idx();
+        Tiny::Vector<Q, bs_> nu;
+        for(int d = 0; d < bs_; ++d) nu[d] = Q::parse(c.str());
+        filter.add(i, nu);
+      }
+      run_with(c, o, h, dval, filter);
+    }
+    else { std::cerr << "\n>>> FATAL ERROR: harness: unknown filter\n"; std::abort(); }
   }
 };
 
